@@ -36,6 +36,9 @@ structure Globals where
   redactedFieldsRegexp : Option (Str → Bool)
   Encrypt : Bytes → Option Bytes → Option Bytes        -- `none` = the error return
   b64 : Bytes → Str
+  /-- `os.ReadFile` (`none` = the error return) and `base64.StdEncoding.DecodeString`, as `ReadKeyFromFile` sees them -/
+  ReadFile : Str → Option Bytes
+  b64dec : Bytes → Option Bytes
   /-- the `--redactFieldNames` namespace prefixes -/
   eagerRedactionPaths : List Str
   /-- `UnmarshalOrdered` (the JSON reader; not translated): `none` = the error return -/
